@@ -206,4 +206,10 @@ structure Err where
 
 def wildcard : Name := ['*']
 
+/-- the annotation of a `let`, when present, differs from the initialiser's type (rule B7) -/
+def letTypeBad (ann : Option ATy) (t : Ty) : Bool :=
+  match ann with
+  | some a => decide (t ≠ a.toTy)
+  | none => false
+
 end SemVerif
